@@ -488,6 +488,38 @@ theorem C07_call_removed_source_destroys_waiters (fuel : Nat) {C W : List Nat} {
       (uaRest_pres P.swf P.sn _ _)
   exact uaRest_destroys_waiters fuel (p.1.setEndOn _ (fun o ho => Or.inl (Tbl.hasOwner_removeOwner ho))) src
 
+/-- **`waitthread`: blocked while the callee lives, released by its destruction — call level (partial).**
+    (1) In every reachable state a thread registered on channel 0 of a thread `t` (a `waitthread` caller; the mirror
+    entry is the only way to be `waiting` on it) finds `t` alive: as long as the caller is blocked the callee has not
+    been destroyed.  (2) `delete thread` of `t` (which has its VM), called in a state satisfying the machine
+    invariant, returns — unless out of fuel — with `t` without VM, nothing registered on `t`, and every thread that was
+    registered only on channel 0 of `t` no longer `waiting` (re-timed by the `Unregister(0)` of `t`'s destructor, to be
+    resumed by the next `ExecuteRunning`; or destroyed).  With `C05_machine_end_writes_slot`: the callee's `end v` wrote
+    its result before this destructor ran.
+    *Missing for the full clause* ("the caller is released by the callee's destruction and by nothing else"): false for
+    the machine in general — the callee (or another child) may execute `local.p0 wait d` (`waitParent`: `Wait(d)` sent to
+    the caller, which re-times it) or `local.p0 notify 0`; both exist in the `hub` generator family or are expressible,
+    and excluding them needs a program-dependent pass over all functions (not done). -/
+theorem C07_call_waitthread_partial :
+    (∀ {s : State}, Reachable s → s.outOfFuel = true ∨
+      ∀ c t, t ∈ Tbl.getD s.waitFor (c, 0) → s.alive t = true ∧
+        ∃ th, s.th? c = some th ∧ th.ts = .waiting ∧ th.dead = false) ∧
+    (∀ (fuel : Nat) {C : List Nat} {s : State} {t : Nat} {th : Th}, Inv C [t] none s → s.th? t = some th →
+      th.hasVM = true →
+      (deleteThread (fuel + 1) s t).outOfFuel = true ∨
+        ((∀ th', (deleteThread (fuel + 1) s t).th? t = some th' → th'.hasVM = false) ∧
+         (∀ n, Tbl.getD (deleteThread (fuel + 1) s t).notify (t, n) = []) ∧
+         (∀ c, (∀ n o, o ∈ Tbl.getD s.waitFor (c, n) → n = 0 ∧ o = t) →
+            ∀ th', (deleteThread (fuel + 1) s t).th? c = some th' → th'.ts ≠ .waiting))) := by
+  constructor
+  · intro s h
+    refine (reachable_hinv h).map (fun hi c t ht => ?_)
+    have hx : c ∈ Tbl.getD s.notify (t, 0) := (hi.inv.tab.mir.mem_iff t 0 c).2 ht
+    obtain ⟨a1, _, th, hf, hw, hd, _⟩ := hi.inv.registered_waiting hx
+    exact ⟨a1, th, hf, hw, hd⟩
+  · intro fuel C s t th h hth hv
+    exact deleteThread_releases_callers fuel h hth hv
+
 /-- non-vacuity: a thread that registered `endon` on `level` and then waits is destroyed by the notify of another
     thread, which proceeds (`m9`) -/
 example : (runOps {} [.script [[.thread 1, .wait 5, .notify 50 7, .mark 9], [.endon 50 7, .wait 100, .mark 2]] [0, 0],
